@@ -565,7 +565,7 @@ class DropletTrackList(list):
                 added = set()
 
                 # calculate the distance between droplets
-                if tracks_alive:
+                if tracks_alive and len(emulsion) > 0:
                     if grid is None:
                         metric: str | Callable = "euclidean"
                     else:
